@@ -80,6 +80,9 @@ def items(tier):
         out.append((sp, {"rule": "TSLACK", "max_time": F.seq_bound(sp) + 8}))
     for sp in F.same_name_task_specs():
         out.append((sp, {"rule": "TSLACK", "max_time": 14}))
+    for sp in F.sectioned_workplace_specs() + F.id_namespace_specs():
+        for rule in ("TSLACK", "SPT"):
+            out.append((sp, {"rule": rule, "max_time": F.seq_bound(sp) + 10}))
     if tier == "thorough":
         for fl in F.flows(3, ("FS", "SS"), (1, 2)):
             for lay in ("MIX", "TWOTEAM", "SOLO"):
